@@ -284,6 +284,14 @@ def check(prop, tier, seed):
                        'variables accumulate, or keep every update they receive']
     with tlc.Scratch() as scratch:
         run(rep, tier, scratch)
+        # reading and writing the same node while the hierarchy changes: what the
+        # directors, the observer and the watcher step read each tick of a
+        # structural history must be the nodes their updates go to (StoreTrace.tla,
+        # rules view / zview)
+        from vv import props_store
+        hs = props_store.histories(tier, seed)
+        hs = hs[-(260 if tier == 'quick' else 2000):]
+        props_store.validate(rep, 'C06', hs, scratch, label='store-views')
     return rep.finish()
 
 
